@@ -49,6 +49,9 @@ def routes_for(z):
             r.append(("label", (lambda lab=lab: Element[lab])))
             r.append(("from_label", (lambda lab=lab: Element.from_label(lab))))
         r.append(("LABEL", (lambda d=d: Element[sym.upper() + d])))
+        r.append(("from_label-UPPER", (lambda d=d: Element.from_label(sym.upper() + d + "_F2____1____i"))))
+        r.append(("from_label-lower", (lambda d=d: Element.from_label(sym.lower() + d + "A"))))
+        r.append(("label-lower", (lambda d=d: Element[sym.lower() + d])))
     return r
 
 
